@@ -66,6 +66,14 @@ Faults(b) ==
         F("similar", doc \o <<D("GET", <<"pax">>, "", FALSE, "", ""), D("RESP", <<"any">>, "", FALSE, "", "200")>>,
           IF \E x \in 1..n : doc[x].k \in Methods \cup {"URL"} /\ doc[x].p # <<>> /\ doc[x].p[1] \in {"pai", "paib"} THEN "similar" ELSE "none", n + 1, "kw", 2),
         F("dupparam", doc \o <<D("GET", <<"pdup">>, "", FALSE, "", ""), D("RESP", <<"any">>, "", FALSE, "", "200")>>, "dupparam", n + 1, "kw", 2),
+        F("dupparam-exotic-name", doc \o <<D("GET", <<"pdupx">>, "", FALSE, "", ""), D("RESP", <<"any">>, "", FALSE, "", "200")>>, "dupparam", n + 1, "kw", 2),
+        F("dupparam-utf8-name", doc \o <<D("GET", <<"pdupu">>, "", FALSE, "", ""), D("RESP", <<"any">>, "", FALSE, "", "200")>>, "dupparam", n + 1, "kw", 2),
+        F("similar-exotic-names", doc \o <<D("GET", <<"psx1">>, "", FALSE, "", ""), D("RESP", <<"any">>, "", FALSE, "", "200"),
+                                           D("GET", <<"psx2">>, "", FALSE, "", ""), D("RESP", <<"any">>, "", FALSE, "", "200")>>, "similar", n + 3, "kw", 4),
+        F("jsight-unsupported-0.3.0", [doc EXCEPT ![1].p = <<"0.3.0">>], "unsupported", 1, "kw", 0),
+        F("jsight-unsupported-0.03", [doc EXCEPT ![1].p = <<"0.03">>], "unsupported", 1, "kw", 0),
+        F("jsight-unsupported-00.3", [doc EXCEPT ![1].p = <<"00.3">>], "unsupported", 1, "kw", 0),
+        F("jsight-unsupported-0.30", [doc EXCEPT ![1].p = <<"0.30">>], "unsupported", 1, "kw", 0),
         F("dupopid", doc \o <<D("GET", <<"pb">>, "", FALSE, "", ""), D("OperationId", <<"op1">>, "", FALSE, "", ""), D("RESP", <<"any">>, "", FALSE, "", "200")>>,
           IF \E x \in 1..n : doc[x].k = "OperationId" THEN "dupopid" ELSE "none", n + 2, "kw", 3),
         F("undefenum", doc \o <<D("TYPE", <<"@t9">>, "", FALSE, "objen", "")>>,
@@ -87,6 +95,8 @@ Faults(b) ==
                                               D("GET", <<>>, "", FALSE, "", ""), D("RESP", <<"any">>, "", FALSE, "", "200")>>, "mixedurl", n + 3, "kw", 4),
         F("unused-path-parameter", doc \o <<D("GET", <<"pci">>, "", TRUE, "", ""), D("Path", <<>>, "", FALSE, "px", ""), D("RESP", <<"any">>, "", FALSE, "", "200"), CloseTok>>,
                                    IF \E x \in 1..n : doc[x].k \in Methods /\ doc[x].p = <<"pci">> /\ doc[x].k = "GET" THEN "none" ELSE "unusedpathparam", n + 2, "kw", 4),
+        F("undeftype-in-path-union", doc \o <<D("GET", <<"ppc">>, "", FALSE, "", ""), D("Path", <<>>, "", FALSE, "pidu", ""), D("RESP", <<"any">>, "", FALSE, "", "200")>>,
+                                     "typenotfound", n + 2, "kw", 3),
         F("description-without-text", doc \o <<D("TAG", <<"@g9">>, "", FALSE, "", ""), D("Description", <<>>, "", FALSE, "", "")>>, "descempty", n + 2, "kw", 2),
         F("empty-path-parameter", doc \o <<D("GET", <<"pempty">>, "", FALSE, "", ""), D("RESP", <<"any">>, "", FALSE, "", "200")>>, "emptyparam", n + 1, "kw", 2)}
 
